@@ -35,6 +35,10 @@ ONE = {
  "C13-2": "toFloatingIPInfo takes the mask of the node subnet instead of the pool",
  "C17-1": "shouldCleanup treats every docker inspect error as container gone",
  "C17-2": "cleanupGCDirs skips the decision for an id it has already visited in another dir",
+ "C12-1": "rollback after a failed ADD calls CmdDel(idx-1): the failed plugin gets no DEL, and for idx 0 the -1 sentinel deletes networks never added",
+ "C12-2": "consumeNetworkInfo wraps its errors (%w): a repeated DEL is no longer recognised and fails",
+ "C12-3": "a pod requesting an ENI IP gets only the ENI network even with a networks annotation",
+ "C12-4": "CmdDel collects failed entries in the backing array of the list it is walking",
 }
 rows = []
 for s in sorted(os.listdir('/verif/seeded')):
